@@ -14,7 +14,7 @@ struct C06 : vr::Driver {
     bool th = tier == "thorough";
     for (int R = 1; R <= 2; R++)
       for (int G = 1; G <= 2; G++)
-        for (int A = 1; A <= 3; A++)
+        for (int A = 1; A <= (th && R == 1 ? 4 : 3); A++)
           for (int d : {0, 2})
             for (int h : {-1, 0, 3}) {
               if (!th && R == 2 && A == 3) continue;   // thorough only: two rulesets x 3-action chains
@@ -50,6 +50,7 @@ struct C06 : vr::Driver {
   void run(size_t i, vr::Result& r, bool verbose) override {
     emc::Options opt;
     opt.dts = {1, 3};
+    if (tier_ == "thorough") opt.dts = {1, 2, 3};
     // detectors: fire / not (ASYNC==CONTINUE is C02's business); actions: CONTINUE / STOP / ASYNC_PAUSED
     opt.arity = [](const std::string& id) { return id.find('d') != std::string::npos ? 2 : 3; };
     emc::exploreConfig("C06", "async", cfgs[i], opt, r, verbose);
@@ -65,9 +66,9 @@ struct C06 : vr::Driver {
     Json::Value b;
     b["rulesets"] = 2;
     b["groups"] = 2;
-    b["actions"] = 3;
+    b["actions"] = tier_ == "thorough" ? 4 : 3;
     b["prekill_hook_timeout"] = "default,0,3";
-    b["clock_advances_s"] = "1,3";
+    b["clock_advances_s"] = tier_ == "thorough" ? "1,2,3" : "1,3";
     b["search"] = "fixpoint per configuration";
     return b;
   }
